@@ -1,4 +1,6 @@
 """C04 - lambda expressions evaluate to their typed reference semantics (spec/Lambda)."""
+import os
+
 import verifylib as V
 
 ASSUME = [
@@ -19,8 +21,10 @@ def run(sc, tier, seed):
     # design level: the code-shaped evaluator (specialisation cache, type guards, copies) against the reference
     # semantics, over every history of API calls on every AST of the configured set
     cfg = "Lambda_quick.cfg" if tier == "quick" else "Lambda_thorough.cfg"
-    R.add_model(V.model_check(sc, "Lambda", "LambdaMC.tla", cfg, timeout=2400))
-    if tier == "thorough":
+    skip_model = bool(os.environ.get("VERIF_C04_SKIP_MODEL"))   # development aid (mutant runs): the model does not depend on the tree
+    if not skip_model:
+        R.add_model(V.model_check(sc, "Lambda", "LambdaMC.tla", cfg, timeout=2400))
+    if tier == "thorough" and not skip_model:
         # observation: the evaluator as it was before the C04 fixes has counterexamples in the same model
         res = V.model_check(sc, "Lambda", "LambdaMC.tla", "Lambda_legacy.cfg", timeout=1200,
                             expect_violation=["CacheIrrelevant", "ErrorsAreErrors", "CopiesIsolated"])
@@ -31,7 +35,12 @@ def run(sc, tier, seed):
     val = V.validate_traces(sc, "Lambda", "LambdaTrace.tla", "LambdaTrace.cfg", meta["trace_files"], env_extra=JAVA, timeout=2400)
     R.states += val["states"]
     R.handle_validation(val)
-    return R.finish("model_checking", ASSUME)
+    # a trace = one history of API calls on one freshly compiled expression (and its copies); an evaluation = one API call
+    return R.finish("model_checking", ASSUME, extra_cov={
+        "evaluations": meta["extra"]["api_calls"],
+        "traces_validated_against_impl": meta["extra"]["histories"],
+        "expressions": meta["traces"],
+    })
 
 
 def replay(sc, path):
